@@ -5,7 +5,8 @@
 cd /verif
 if [ -n "$(git -C /repo status --porcelain --untracked-files=no)" ]; then echo "/repo is not clean"; exit 2; fi
 OUT=seeded/REGRESSION.md
-SEEDS="$@"; [ -z "$SEEDS" ] && SEEDS=$(ls seeded | grep -v "\.md$")
+SEEDS="$@"; PARTIAL=0
+if [ -n "$SEEDS" ]; then PARTIAL=1; cp $OUT /tmp/REGRESSION.prev 2>/dev/null; OUT=/tmp/REGRESSION.part; else SEEDS=$(ls seeded | grep -v "\.md$"); fi
 echo "# Seeded changes against the current checks ($(date -u +%F' '%H:%M)Z, /repo $(git -C /repo log -1 --format=%h), /verif $(git log -1 --format=%h))" > $OUT
 echo >> $OUT; echo "| seed | check | exit | verdict |" >> $OUT; echo "|---|---|---|---|" >> $OUT
 bad=0
@@ -22,4 +23,15 @@ for s in $SEEDS; do
   echo "$s $prop exit=$rc $v"
 done
 echo >> $OUT; echo "Evidence files in /verif/evidence were overwritten by these runs: re-run the quick tier on the unchanged tree afterwards." >> $OUT
+if [ $PARTIAL -eq 1 ]; then
+  # replace the rows of the seeds just re-run in the previous full table
+  python3 - <<'PY'
+import re
+prev = open('/tmp/REGRESSION.prev').read().splitlines()
+part = {l.split('|')[1].strip(): l for l in open('/tmp/REGRESSION.part').read().splitlines() if l.startswith('| ') and not l.startswith('| seed')}
+out = [part.get(l.split('|')[1].strip(), l) if l.startswith('| ') and not l.startswith('| seed') else l for l in prev]
+out.append("Rows re-run individually afterwards: " + ", ".join(sorted(part)))
+open('/verif/seeded/REGRESSION.md', 'w').write("\n".join(out) + "\n")
+PY
+fi
 exit $bad
